@@ -16,7 +16,7 @@ Zero(), Q[...]) — what C12 and C13 quantify over.
 
 from __future__ import annotations
 
-NAMES = ["A", "B", "C", "D", "W", "X", "Y", "Z", "X1", "Z2", "M"]
+NAMES = ["A", "B", "C", "D", "W", "X", "Y", "Z", "X1", "Z2", "M", "X_1", "Y_2", "Pi1"]
 POPS = ["π1", "π2", "Pi3"]
 
 
@@ -176,10 +176,26 @@ def ast_var_names(ast) -> set:
     return set()
 
 
+def ast_valued_names(ast) -> set:
+    """Names that occur with a value mark as a child/parent somewhere."""
+    t = ast[0]
+    if t == "P":
+        return {v[0] for v in ast[2] + ast[3] if v[1] is not None}
+    if t == "prod":
+        out = set()
+        for e in ast[1]:
+            out |= ast_valued_names(e)
+        return out
+    if t == "sum":
+        return ast_valued_names(ast[2])
+    if t == "frac":
+        return ast_valued_names(ast[1]) | ast_valued_names(ast[2])
+    return set()
+
+
 def ast_well_scoped(ast) -> bool:
-    """Every Sum range name occurs free and unstarred in the body, or not at all as a variable
-    of the body (an over-wide range); a bound name that the body mentions only with a value
-    mark is ill-scoped (DESIGN §3)."""
+    """A Sum range name occurs free and unstarred in the body or not at all (an over-wide range);
+    a bound name that the body also mentions with a value mark (a constant) is ill-scoped (DESIGN §3)."""
     t = ast[0]
     if t == "prod":
         return all(ast_well_scoped(e) for e in ast[1])
@@ -187,8 +203,8 @@ def ast_well_scoped(ast) -> bool:
         return ast_well_scoped(ast[1]) and ast_well_scoped(ast[2])
     if t == "sum":
         body = ast[2]
-        fv, vn = ast_free(body), ast_var_names(body)
-        return all((n in fv) or (n not in vn) for n in ast[1]) and ast_well_scoped(body)
+        valued = ast_valued_names(body)
+        return all(n not in valued for n in ast[1]) and ast_well_scoped(body)
     return True
 
 
@@ -299,7 +315,7 @@ def rand_ast(rng, depth, names, opts):
         return ["prod", [rand_ast(rng, rng.randint(0, depth - 1), names, opts) for _ in range(n)]]
     if r < 0.62:
         body = rand_ast(rng, depth - 1, names, opts)
-        fv = sorted(ast_free(body))
+        fv = sorted(ast_free(body) - ast_valued_names(body))
         if ast_has(body, {"q"}):
             fv = [n for n in fv if n not in _q_names(body)]
         if not fv:
@@ -324,6 +340,17 @@ def rand_ast(rng, depth, names, opts):
             den = num if not may_be_zero(num) else den
         return ["frac", num, den]
     return rand_ast(rng, depth - 1, names, opts)
+
+
+def rand_fracnest(rng, atoms, depth):
+    """Random nesting of products and fractions over a SMALL pool of atoms (with replacement), so that
+    numerators and denominators coincide or cancel after multiplying out -- the class in which a
+    canonical form is most likely to need a second pass."""
+    if depth <= 0 or rng.random() < 0.25:
+        return rng.choice(atoms)
+    if rng.random() < 0.45:
+        return ["prod", [rand_fracnest(rng, atoms, depth - 1) for _ in range(rng.choice([2, 2, 3]))]]
+    return ["frac", rand_fracnest(rng, atoms, depth - 1), rand_fracnest(rng, atoms, depth - 1)]
 
 
 def _q_names(ast):
